@@ -344,3 +344,8 @@ CLAIMS["C03"]["note"] += (" No scope is driven past MaxInt64 bytes in total (the
 
 CLAIMS["C06"]["text"] += (" A third of the schedules build the swarm with a metrics tracer (connections are wrapped on admission) and a quarter of the transport connections report an error from Close/CloseWithError while shutting down all the same; "
     "whether a connection is limited is taken from what the scripted transport produced: the swarm's Stat().Limited must agree and Connectedness and events are judged against the transport's truth (labels limited-conn-under-metrics-tracer, transport-close-reports-error).")
+
+CLAIMS["C15"]["text"] += (" Bus construction is a generated dimension: half of all schedules, and every shape of both enumerations, run on a bus built with WithMetricsTracer (a tracer that only counts), combined with every BufSize including 0 and typed, multi-type and wildcard subscriptions; all delivery, blocking, no-panic and no-deadlock oracles apply unchanged to such buses.")
+CLAIMS["C15"]["note"] += (" The tracer's values are not judged (metrics are outside the statement). A panic inside Emit is reported as a process crash of the shard, because the panicking emit keeps its node lock.")
+CLAIMS["C14"]["text"] += (" Tag values are generated over the whole int range (TagPeer, UpsertTag and decaying bumps near MaxInt, MinInt, +-MaxInt/2 or any int) and a bounded-exhaustive sweep covers totals {MinInt .. MaxInt}; peers whose totals differ by more than MaxInt must still be pruned in plain numeric order.")
+CLAIMS["C14"]["note"] += (" A peer whose int tag values sum outside the int range has no reportable total: its rank in a trim is not judged (labelled, about 2 % of cases).")
